@@ -1068,10 +1068,25 @@ fn num_recip_i_body() {
 
 // (expt n/d e): n in -3..3 (not 0), d in {2,3,5} coprime to n, e in -40..40.  Exact while both components of the
 // result fit 32 bits; beyond that the result has to leave the small form (its value there is num-bigint's, not checked).
+const fn pow_table(b: i128) -> [i128; 41] {
+    let mut t = [1i128; 41];
+    let mut i = 1;
+    while i < 41 {
+        t[i] = t[i - 1] * b;
+        i += 1;
+    }
+    t
+}
+const POW2: [i128; 41] = pow_table(2);
+const POW3: [i128; 41] = pow_table(3);
+const POW5: [i128; 41] = pow_table(5);
 static mut RPOW_BIG: bool = false;
 // num-bigint's big-integer power is not executed: the stub records that the big path was taken and returns a
 // marker that cannot fit 32 bits (trusted: num-bigint / num-rational compute powers exactly)
-fn bigint_pow_biguint_ref_stub<'b>(this: BigInt, _e: &'b num_bigint::BigUint) -> BigInt {
+fn bigint_pow_biguint_ref_stub<'b>(this: BigInt, _e: &'b num_bigint::BigUint) -> BigInt
+where
+    'b: 'b,
+{
     unsafe { RPOW_BIG = true };
     core::mem::forget(this);
     BigInt::from(i128::MAX)
@@ -1099,18 +1114,12 @@ fn num_expt_rational_i_body() {
     let base = Rational(Rational32::new_raw(n, d));
     let ex = IntV(e);
     let r = expt(&base, &ex);
-    // exact components in 128 bits: |n|^|e| <= 3^40, d^|e| <= 5^40 < 2^93
-    let ae = if e < 0 { -e } else { e } as u32;
-    let mut pn: i128 = 1;
-    let mut pd: i128 = 1;
-    let mut i = 0;
-    while i < 40 {
-        if i < ae {
-            pn *= n as i128;
-            pd *= d as i128;
-        }
-        i += 1;
-    }
+    // exact components in 128 bits from constant tables (no loop in the oracle): |n|^|e| <= 3^40, d^|e| <= 5^40 < 2^93
+    let ae = (if e < 0 { -e } else { e }) as usize;
+    let an = if n < 0 { -n } else { n };
+    let mag = if an == 1 { 1 } else if an == 2 { POW2[ae] } else { POW3[ae] };
+    let pn: i128 = if n < 0 && ae % 2 == 1 { -mag } else { mag };
+    let pd: i128 = if d == 2 { POW2[ae] } else if d == 3 { POW3[ae] } else { POW5[ae] };
     // numerator / denominator of the result, denominator positive
     let (rn, rd) = if e >= 0 { (pn, pd) } else if pn < 0 { (-pd, -pn) } else { (pd, pn) };
     let fits = rn >= i32::MIN as i128 && rn <= i32::MAX as i128 && rd <= i32::MAX as i128;
